@@ -19,6 +19,7 @@ import (
 	"math/rand"
 	netmail "net/mail"
 	"os"
+	"os/exec"
 	"path/filepath"
 	"runtime"
 	"sort"
@@ -109,6 +110,35 @@ func clipS(s string, n int) string {
 
 //go:embed embedded/embedded.bin
 var embeddedFS embed.FS
+
+var (
+	sendmailMu   sync.Mutex
+	sendmailOnce sync.Once
+	sendmailPath string
+	sendmailErr  error
+)
+
+// sendmailScript installs (once per process) the stand-in for the sendmail binary: a script that stores its standard
+// input. A script that was just written can be "text file busy" while a concurrently forked child still holds the
+// descriptor it was written through: the script is probed until it starts.
+func sendmailScript(dir string) (script, spool string, err error) {
+	sendmailOnce.Do(func() {
+		sendmailPath = filepath.Join(dir, fmt.Sprintf("sendmail-%d.sh", os.Getpid()))
+		body := "#!/bin/sh\ncat > '" + sendmailPath + ".out'\n"
+		if sendmailErr = os.WriteFile(sendmailPath, []byte(body), 0o700); sendmailErr != nil {
+			return
+		}
+		for i := 0; i < 200; i++ {
+			c := exec.Command(sendmailPath)
+			c.Stdin = strings.NewReader("")
+			if sendmailErr = c.Run(); sendmailErr == nil {
+				return
+			}
+			time.Sleep(10 * time.Millisecond)
+		}
+	})
+	return sendmailPath, sendmailPath + ".out", sendmailErr
+}
 
 var errProducer = errors.New("scripted producer failure")
 
@@ -1469,20 +1499,20 @@ func (rn *Runner) Run() {
 		case "SkipMw": // the render path that skips one middleware type
 			guard(func() { n, oerr = built.Msg.WriteToSkipMiddleware(&out, "no-such-middleware") })
 		case "Sendmail": // a local sendmail binary: here a script that stores what it reads
-			script := filepath.Join(rn.TmpDir, fmt.Sprintf("sendmail-%d-%d.sh", rn.T, k))
-			spool := script + ".out"
-			if werr := os.WriteFile(script, []byte("#!/bin/sh\ncat > '"+spool+"'\n"), 0o700); werr != nil {
-				rn.Infra = werr
+			script, spool, serr := sendmailScript(rn.TmpDir)
+			if serr != nil {
+				rn.Infra = serr
 				return
 			}
+			sendmailMu.Lock()
+			_ = os.Remove(spool)
 			guard(func() { oerr = built.Msg.WriteToSendmailWithCommand(script) })
 			if oerr == nil && pan == "" {
 				var b []byte
 				b, oerr = os.ReadFile(spool)
 				out.Write(b)
 			}
-			_ = os.Remove(script)
-			_ = os.Remove(spool)
+			sendmailMu.Unlock()
 			n = int64(out.Len())
 		case "TempFile":
 			var path string
